@@ -1342,10 +1342,16 @@ fn compat_family(b: &mut Builder) -> Vec<Pair> {
         (FTy::OptByteVec, None, "Option<ByteVec>"),
         (FTy::OptStr, Some(300), "tagged Option<String>"),
         (FTy::OptIndefArr, None, "Option<indefinite array type>"),
+        (FTy::GenericOptU8, None, "generic parameter T = Option<u8> (optional through Decode::nil, not spelled Option)"),
     ];
-    for enc in [None, Some(Enc::Map)] {
-        let en = if enc.is_none() { "array" } else { "map" };
-        let mk = |b: &mut Builder, fields: Vec<FieldS>| b.push("G-compat", false, Kind::Struct(StructS { shape: Shape::Named, enc, tag: None, transparent: false, fields }));
+    for (enc, shape) in [(None, Shape::Named), (Some(Enc::Map), Shape::Named), (None, Shape::Tuple), (Some(Enc::Map), Shape::Tuple)] {
+        let en = match (enc.is_none(), shape == Shape::Named) {
+            (true, true) => "array",
+            (false, true) => "map",
+            (true, false) => "array, tuple struct",
+            (false, false) => "map, tuple struct",
+        };
+        let mk = |b: &mut Builder, fields: Vec<FieldS>| b.push("G-compat", false, Kind::Struct(StructS { shape, enc, tag: None, transparent: false, fields }));
         // bases: the field under edit is followed by a mandatory sibling
         let b1 = mk(b, vec![fld(0, FTy::U8), fld(2, FTy::U8)]);
         let b2 = mk(b, vec![fld(0, FTy::OptU8), fld(2, FTy::U8)]);
